@@ -90,10 +90,22 @@ func init() {
 			stH := e.havocComps(c.st, dirty)
 			a1 := callArgs(stH)
 			evalInv(stH, a1, c.pc, "", true)
+			pre1 := stH.clone()
 			r, pcAfter := e.callFn(fr, c.instr, cl.fn, a1, cl.bindings, errType(), stH, c.pc, c.label+".walkfn")
 			okPC := c.pc
 			if r != nil {
 				okPC = And(pcAfter, Eq(r, NilIface))
+			}
+			// postconditions of the callback: checked after this one call
+			if len(ct.Ensures) > 0 && r != nil {
+				all := append(append([]*Term{}, a1...), e.captureVals(ct, cl.fn, cl.bindings, stH)...)
+				for _, en := range ct.Ensures {
+					saved := en.Kind
+					en.Kind = "invariant"
+					g := e.evalClause(fr, en, all, []*Term{r}, stH, pre1, pcAfter)
+					en.Kind = saved
+					e.addObl(fr, "ensures", fmt.Sprintf("%s.walk.%s", shortFn(cl.fn), en.Label), en.Props, pcAfter, g, fmt.Sprintf("%s:%d", ct.File, en.Line))
+				}
 			}
 			evalInv(stH, callArgs(stH), okPC, "inv-step", false)
 			// state after the walk: any state satisfying the invariant
